@@ -2,6 +2,7 @@ package main
 
 import (
 	"context"
+	"strings"
 
 	"github.com/a-h/templ"
 
@@ -22,6 +23,9 @@ type Sink struct {
 	Pat func(v string) []PTok
 	// Rep: representative of its context -- every generated string is also validated by TLC
 	Rep bool
+	// Thin: one of many similar sinks (spread key classes): every string is rendered and checked by the second key,
+	// only every fourth core string is also validated by TLC (and every rejected case)
+	Thin bool
 	// Fixed: the component takes no input (a constant or literal expression form): rendered once
 	Fixed bool
 }
@@ -283,6 +287,53 @@ func sinks() []Sink {
 			Render: func(s string) (templ.Component, context.Context) { return plain(attrLiteral()) }},
 		{ID: "attr-form-rawliteral", Fixed: true, Ctx: "AttrDQ", Kind: "attr", Eff: func(string) string { return `" onmouseover="alert(1)" x='<&>` }, Pat: pAttr("title"),
 			Render: func(s string) (templ.Component, context.Context) { return plain(attrRawLiteral()) }},
+	}
+	// spread attributes: KEY classes the runtime could special-case x value kinds. Whatever RenderAttributes does with a
+	// key (URL sanitising, script or style handling), the value must stay ONE double-quoted attribute value.
+	urlKey := func(k string) bool {
+		k = strings.ToLower(k)
+		return k == "href" || k == "action" || k == "formaction"
+	}
+	for _, key := range []string{"href", "HREF", "Href", "action", "Action", "formaction", "FormAction", "src", "SRC", "style", "Style", "class",
+		"onclick", "ONCLICK", "onMouseOver", "hx-on:click", "data-x", "DATA-X", "title", "value", "srcdoc", "xlink:href"} {
+		key := key
+		kinds := []struct {
+			name string
+			mk   func(s string) any
+		}{
+			{"string", func(s string) any { return s }},
+			{"pstring", func(s string) any { return ptr(s) }},
+			{"kv", func(s string) any { return templ.KV(s, true) }},
+		}
+		for _, kd := range kinds {
+			kd := kd
+			val := "$V"
+			if urlKey(key) {
+				val = "$A" // a runtime that sanitises URL keys may replace the value: structure only
+			}
+			ss = append(ss, Sink{ID: "spreadkey-" + key + "-" + kd.name, Ctx: "AttrDQ", Kind: "spread", Thin: true, Eff: id,
+				Pat: func(string) []PTok { return []PTok{Start("p", key, val), Text("x"), End("p")} },
+				Render: func(s string) (templ.Component, context.Context) {
+					return plain(attrSpread(templ.Attributes{key: kd.mk(s)}))
+				}})
+		}
+		if urlKey(key) {
+			// a SafeURL value: whether the runtime renders this kind at all is probed once; if it does, one attribute
+			probe, _ := render(&Sink{Render: func(s string) (templ.Component, context.Context) {
+				return plain(attrSpread(templ.Attributes{key: templ.SafeURL(s)}))
+			}}, "Q7Q")
+			rendered := strings.Contains(probe, "Q7Q")
+			ss = append(ss, Sink{ID: "spreadkey-" + key + "-safeurl", Ctx: "AttrDQ", Kind: "spread", Thin: true, Eff: id,
+				Pat: func(string) []PTok {
+					if rendered {
+						return []PTok{Start("p", key, "$V"), Text("x"), End("p")}
+					}
+					return []PTok{Start("p"), Text("x"), End("p")}
+				},
+				Render: func(s string) (templ.Component, context.Context) {
+					return plain(attrSpread(templ.Attributes{key: templ.SafeURL(s)}))
+				}})
+		}
 	}
 	return ss
 }
